@@ -167,6 +167,52 @@ def vertical_obligations(rep, prop):
         except pyvc.Unsupported as e: rep.canary(name, True, str(e))
     return obs
 
+PV_Q = 'TransformationInstructionsGenerator._produce_transformation_for_vertical_opt'
+def _pv_native(case):
+    """the REAL _produce_transformation_for_vertical_opt on real qtyping objects.  case: consumers=[(op id, [transformations], param key)], groups=[[positions]] or None (no depth 1)"""
+    import types
+    g, qt, PAR = _vo_mods(); T = qt.QuantTransformation
+    cons = [qt.OpToTensorParams(subgraph_op_id=o, transformations=[T(t) for t in trs], parameters=PAR[pk]) for (o, trs, pk) in case['consumers']]
+    param = qt.TensorTransformationParams(tensor_name='t', producer=None, consumers=cons)
+    info = g.TransformationInstructionsGenerator.TensorGraphInfo(5, 0, 2, [c[0] for c in case['consumers']])
+    self_ = types.SimpleNamespace(_tensor_name_to_graph_info={'t': info})
+    cg = [[set(range(len(cons)))]] + ([[set(grp) for grp in case['groups']]] if case['groups'] is not None else [])
+    try: out = g.TransformationInstructionsGenerator._produce_transformation_for_vertical_opt(self_, cg, param)
+    except Exception as e: return dict(confirmed=True, inputs=case, violated=[f'raised {type(e).__name__}: {e}'])
+    groups = case['groups'] or []; bad = []
+    if len(out) != len(groups): bad.append(f'{len(out)} instructions for {len(groups)} groups')
+    for k, (inst, grp) in enumerate(zip(out, groups)):
+        ops = [cons[i].subgraph_op_id for i in grp]
+        if sorted(inst.consumers) != sorted(ops): bad.append(f'group {k}: consumers {list(inst.consumers)}, contract says the operator ids of the members {sorted(ops)} (each once)')
+        elif (inst.tensor_id, inst.producer) != (5, 2): bad.append(f'group {k}: tensor id / producer ({inst.tensor_id}, {inst.producer}) not taken from the graph-info table (5, 2)')
+        else:
+            first = next(i for i in grp if cons[i].subgraph_op_id == inst.consumers[0])
+            if inst.transformation != cons[first].transformations[0] or inst.parameters is not cons[first].parameters: bad.append(f'group {k}: transformation / parameters are not those of the member enumerated first (position {first})')
+    return dict(confirmed=bool(bad), inputs=case, violated=bad)
+def _pv_search(label=None):
+    import itertools
+    pool = [(10, [1], 0), (7, [2, 1], 2), (3, [0], 1), (12, [1, 2], 2)]
+    for n in (1, 2, 3, 4):
+        cons = pool[:n]
+        parts = [None, [list(range(n))]] + ([[[0], list(range(1, n))], [list(range(1, n)), [0]], [[n - 1], list(range(n - 1))]] if n >= 2 else []) + ([[[i] for i in range(n)]] if n >= 2 else [])
+        for grp in parts:
+            r = _pv_native(dict(consumers=[(o, list(t), k) for o, t, k in cons], groups=grp))
+            if r['confirmed']: return r
+    return None
+PV_CANARIES = [('_produce_transformation_for_vertical_opt: positions instead of operator ids', "          op_idx_list.append(param.consumers[index].subgraph_op_id)\n        transformations_available_for_vertical_optimization.append(", "          op_idx_list.append(index)\n        transformations_available_for_vertical_optimization.append("),
+               ('_produce_transformation_for_vertical_opt: producer and tensor id swapped', "                tensor_info.tensor_id,\n                tensor_info.producer,\n                op_idx_list,\n                param.consumers[op_list[0]].parameters,\n            )\n        )\n    return transformations_available_for_vertical_optimization",
+                "                tensor_info.producer,\n                tensor_info.tensor_id,\n                op_idx_list,\n                param.consumers[op_list[0]].parameters,\n            )\n        )\n    return transformations_available_for_vertical_optimization")]
+def produce_obligations(rep, prop):
+    obs = pyvc.verify(rep, prop, core.Fn(TIG, PV_Q), vertical.ProduceForVerticalOpt(), select=None, fallback=_pv_search)
+    src = core.read_source(TIG)
+    for name, a, b in (PV_CANARIES if rep.tier == 'thorough' else PV_CANARIES[rep.seed % 2:rep.seed % 2 + 1]):
+        if a not in src: rep.canary(name, False, 'mutation site not found (stale canary)'); continue
+        try:
+            E = pyvc.run_function(core.Fn(TIG, PV_Q, src_override=src.replace(a, b, 1)), vertical.ProduceForVerticalOpt())
+            bad = [ob.label for ob, st, dt, det, mv in pyvc.decide_parallel(E, E.spec, timeout=10000, canary=True) if st != 'proved']; rep.canary(name, bool(bad), str(bad[:3]))
+        except pyvc.Unsupported as e: rep.canary(name, True, str(e))
+    return obs
+
 PERF = 'transformation_performer.py'
 _as_cases = []
 def _search_apply_single(label):
